@@ -439,6 +439,62 @@ def rx2(watch: bool, n: int, c1: int, c2: int, c3: int, c4: int, rd1: bool, rd2:
 rx2.ranges = lambda consts: dict(c1=(0, 3), c2=(0, 3), c3=(0, 3), c4=(0, 3))
 
 
+def rxmap(n: int, c1: int, c2: int, c3: int, c4: int, upd: bool) -> None:
+    """out = rx([4, 5, 6]).rx.map(slow) with a gated coroutine: the calls complete in a solver-chosen order; optionally the
+    collection is replaced while calls are pending.  The expression ends up with the results in input order for the
+    most recent collection."""
+    upd = pickbool(upd)
+    state = {}
+
+    async def main():
+        loop = asyncio.get_running_loop()
+        gates = []
+
+        async def slow(v):
+            f = loop.create_future()
+            gates.append((v, f))
+            await f
+            return v * 10
+        src = rx([4, 5, 6][:n])
+        out = src.rx.map(slow)
+        out.rx.watch(lambda v: None)
+        out.rx.value
+        for _ in range(6):
+            await asyncio.sleep(0)
+        cur = [4, 5, 6][:n]
+        for step, c in enumerate((c1, c2, c3, c4)):
+            if upd and step == 1:
+                cur = [7, 8]
+                src.rx.value = list(cur)
+                for _ in range(6):
+                    await asyncio.sleep(0)
+            pend = [g for g in gates if not g[1].done()]
+            if not pend:
+                break
+            assume(0 <= c < len(pend))
+            c = pick(c, 0, len(pend) - 1)
+            pend[c][1].set_result(None)
+            for _ in range(8):
+                await asyncio.sleep(0)
+        for _ in range(3):
+            for g in gates:
+                if not g[1].done():
+                    g[1].set_result(None)
+            for _ in range(8):
+                await asyncio.sleep(0)
+        state['final'] = out.rx.value
+        state['exp'] = [v * 10 for v in cur]
+    loop = asyncio.new_event_loop()
+    try:
+        loop.run_until_complete(main())
+    finally:
+        loop.close()
+    check('C10.rx_latest', state['final'] == state['exp'], {'map': True, 'final': repr(state['final']), 'exp': repr(state['exp']), 'replaced': upd})
+
+
+rxmap.ranges = lambda consts: dict(c1=(0, 2), c2=(0, 2), c3=(0, 2), c4=(0, 2))
+
+
 def rxprog(n: int, c1: int, c2: int, c3: int) -> None:
     """src = rx(1); out = src.rx.pipe(slow); n-1 further root updates; completions in a solver-chosen order."""
     state = {}
@@ -513,6 +569,8 @@ def shards(tier):
     for watch in (False, True):
         out.append(dict(name='rxarg_%d' % watch, module='harness.c10', fn='rxarg', consts=dict(watch=watch), budget_s=60 if q else 300))
         out.append(dict(name='rx2_%d' % watch, module='harness.c10', fn='rx2', consts=dict(watch=watch, n=3), budget_s=60 if q else 300))
+    for n in (2, 3):
+        out.append(dict(name='rxmap_n%d' % n, module='harness.c10', fn='rxmap', consts=dict(n=n), budget_s=60 if q else 300))
     out.append(dict(name='rxgen', module='harness.c10', fn='rxgen', consts={}, budget_s=60 if q else 300))
     for n in (2, 3):
         out.append(dict(name='rx_n%d' % n, module='harness.c10', fn='rxprog', consts=dict(n=n), budget_s=60 if q else 300))
@@ -521,4 +579,4 @@ def shards(tier):
 
 def bounds(tier):
     return dict(assignments='2 and 3', kinds=['coroutine function', 'two-value async generator', 'plain value'],
-                completion_steps=5, same_function_object_reassigned=[False, True], rx_pipeline_updates='2 and 3', rx_two_stage_steps=4, reads_between_completions='symbolic')
+                completion_steps=5, same_function_object_reassigned=[False, True], rx_pipeline_updates='2 and 3', rx_two_stage_steps=4, reads_between_completions='symbolic', rx_map='2 and 3 items, completion order symbolic, optional replacement of the collection')
